@@ -148,11 +148,13 @@ impl Check for C07Check {
             Phase::random("token-soups", tier.pick(60_000, 2_000_000), 120).with_min_tape(6).with_chunk(1024),
             Phase::random("random-operator-expressions", tier.pick(60_000, 2_000_000), 96).with_min_tape(16).with_chunk(1024),
             Phase::random("random-core-asts", tier.pick(40_000, 1_000_000), 160).with_min_tape(24).with_chunk(512),
+            Phase::exhaustive("repetition", repetition_programs().len() as u64).with_chunk(16),
         ]
     }
     fn run(&self, tier: Tier, phase: usize, input: &Input, ctx: &mut CaseCtx) {
         match (phase, input) {
             (_, Input::Text(s)) => execute_all(s, ctx, 3000),
+            (6, Input::Index(i)) => execute_all(&repetition_programs()[*i as usize], ctx, 3000),
             (0, Input::Index(i)) => {
                 let p = pool();
                 let o = ops();
